@@ -1235,6 +1235,10 @@ func replay(c *core.Ctx) {
 		c.HarnessError("bad case: %v", err)
 		return
 	}
+	if cs.SaveFormat < 0 {
+		checker{c}.afterFailedWrite(-cs.SaveFormat - 1)
+		return
+	}
 	if cs.SaveFormat > 0 {
 		checker{c}.saveOver(cs.SaveSeq, cs.SaveFormat-1)
 		return
